@@ -230,7 +230,14 @@ func dischargeBounds(p *Program, ob BoundsOb) (bool, string) {
 			problems = append(problems, "0 <= "+exprStr(x.Low))
 		}
 		if x.High != nil {
-			if !d.leExpr(x.High, 0, lenX, 0) {
+			inCap := false
+			if t := info.TypeOf(x.X); t != nil {
+				if _, isSl := t.Underlying().(*types.Slice); isSl {
+					// a slice may be re-sliced up to its capacity
+					inCap = d.leExpr(x.High, 0, &ast.CallExpr{Fun: ast.NewIdent("cap"), Args: []ast.Expr{x.X}}, 0)
+				}
+			}
+			if !inCap && !d.leExpr(x.High, 0, lenX, 0) {
 				problems = append(problems, exprStr(x.High)+" <= len("+exprStr(x.X)+")")
 			}
 			if x.Low != nil {
